@@ -291,6 +291,9 @@ PROPS['C02']['level_text'] += (' The fixed modes are a discharged contract on th
                                'defMode/maxChunkSize.')
 # C16: the schemaless decoder picks its codec from the recovered tag set -- the tag region and its cache invariant
 PROPS['C16']['contracts'] = PROPS['C16']['contracts'] + DEC_REGIONS[2:5]
+REAL = [(D, 'ber.decoder::RealPayloadDecoder.valueDecoder[complete]')]
+for _p in ('C08', 'C09'):
+    PROPS[_p]['contracts'] = PROPS[_p]['contracts'] + REAL
 BS = 'contracts.base'
 BASE = [(BS, 'type.base::SimpleAsn1Type.__init__'), (BS, 'type.base::SimpleAsn1Type.clone'),
         (BS, 'type.base::SimpleAsn1Type.subtype')]
